@@ -255,6 +255,13 @@ Error RACFGBuilder::on_instruction(InstNode* inst, InstControlFlow& cf, RAInstBu
               }
             }
 
+            // Do not use RegMem flag if the register form zero-extends into bytes of the virtual register that are in use:
+            // a memory operand of `rm_size` bytes leaves these bytes of the home slot untouched (`add eax, 1` clears the
+            // upper half of RAX, `add dword [home], 1` does not).
+            if (op_rw_info.is_write() && (work_reg->reg_byte_mask() & op_rw_info.extend_byte_mask() & ~op_rw_info.write_byte_mask())) {
+              flags &= ~(RATiedFlags::kUseRM | RATiedFlags::kOutRM);
+            }
+
             RegGroup group = work_reg->group();
             RegMask use_regs = _pass._available_regs[group] & allowed_regs;
             RegMask out_regs = use_regs;
